@@ -66,3 +66,61 @@ Proof.
 Qed.
 
 End Life.
+
+(** The same life ended through POP3: the store the SMTP dialogue built satisfies the invariant the POP3 commit
+    theorem asks for, so for ANY POP3 session over that store that is in TRANSACTION state and has marked the
+    message (snapshot position j, retain flag false), its QUIT leaves a store on which REST and the web UI answer 404
+    for it - and on which nothing the session did not mark has gone. *)
+From IV Require Proofs.Pop3 Proofs.Pop3Store Proofs.InterfacesRemovalPop3.
+
+Section LifePop3.
+Variable tag_of : delivery -> N.
+Variable date : Z.
+Variable content : N -> str.
+Variable src : delivery -> str.
+Variable mfa : str -> option str.
+Variable srcok : str -> nat -> bool.
+
+Lemma store_of_cinv ds : Proofs.Pop3Store.CInv (store_of tag_of date 0 ds).
+Proof. unfold store_of. apply Proofs.Pop3Store.final_spec_CInv, Proofs.Pop3Store.CInv_init. Qed.
+
+Theorem delivered_then_popped : forall c o w d name num body fl pw args j m,
+  let tr := snd (fst (run_bytes c o w)) in
+  let st := store_of tag_of date 0 (deliveries_of tr) in
+  (forall d', In d' (deliveries_of tr) -> content (tag_of d') = src d') ->
+  In d (deliveries_of tr) -> mfa name = Some (d_mailbox d) ->
+  (forall k, srcok (d_mailbox d) k = true) ->
+  exists i e,
+    nth_error (box (d_mailbox d) (live st)) i = Some e /\ m_tag (e_msg e) = tag_of d /\
+    Rest.run_handler mfa (cfgc 0) srcok st Rest.HSrc name (Rest.id_of_k (e_k e)) num body = (st, (Rest.S200, Rest.PSrc (e_k e, e_msg e))) /\
+    (* any POP3 session on that mailbox over that store which marked it … *)
+    (Pop3.w_store pw = Pop3Store.abs content st -> Proofs.Pop3.winv pw ->
+     Pop3.s_state (Pop3.w_sess pw) = Pop3.Trans -> Pop3.s_user (Pop3.w_sess pw) = d_mailbox d ->
+     nth_error (Pop3.s_msgs (Pop3.w_sess pw)) j = Some m -> nth_error (Pop3.s_retain (Pop3.w_sess pw)) j = Some false ->
+     Pop3.p_id m = Pop3Store.id_of_k (e_k e) ->
+     let st' := final_spec (cfgc 0) st (Pop3Store.quit_ops (d_mailbox d) (Pop3.s_msgs (Pop3.w_sess pw)) (Pop3.s_retain (Pop3.w_sess pw))) in
+     let pw' := Pop3.wstep fl pw (Pop3.ECmd (Pop3.CCmd Pop3.QUIT args)) in
+     (* … ends with its QUIT, after which the message is gone from the store, REST and the web UI *)
+     Pop3.s_state (Pop3.w_sess pw') = Pop3.Closed /\ Pop3.w_store pw' = Pop3Store.abs content st' /\
+     exec_spec (cfgc 0) st' (Get (d_mailbox d) (Kth (e_k e))) = (st', OGet NotExist, []) /\
+     Rest.run_handler mfa (cfgc 0) srcok st' Rest.HSrc name (Rest.id_of_k (e_k e)) num body = (st', (Rest.S404, Rest.PNone)) /\
+     Rest.run_handler mfa (cfgc 0) srcok st' Rest.USrc name (Rest.id_of_k (e_k e)) num body = (st', (Rest.S404, Rest.PNone)) /\
+     (forall x, In x (live st') -> In x (live st)) /\
+     (forall mb', mb' <> d_mailbox d -> box mb' (live st') = box mb' (live st))).
+Proof.
+  intros c o w d name num body fl pw args j m tr st Hsrc Hin Hn Hok.
+  destruct (every_delivery_is_readable tag_of date content src mfa srcok c o w d name num body Hsrc Hin Hn Hok)
+    as (i & e & H1 & H2 & H3 & _).
+  fold tr in H1, H3. fold st in H1, H3.
+  exists i, e. split; [exact H1|]. split; [exact H2|]. split; [exact H3|].
+  intros Hst Hw Ht Hu Hm Hr Hid st' pw'.
+  pose proof (store_of_cinv (deliveries_of tr)) as Hc. fold st in Hc.
+  destruct (InterfacesRemovalPop3.pop3_quit_deletions_reach_every_interface content mfa srcok (cfgc 0) fl st pw args Hc Hst Hw Ht)
+    as (Q1 & Q2 & Q3 & Q4 & _ & Q6).
+  cbn zeta in Q1, Q2, Q3, Q4, Q6. rewrite Hu in Q2, Q3, Q4, Q6. fold st' in Q2, Q3, Q4, Q6. fold pw' in Q1, Q2.
+  destruct (Q3 j m (e_k e) name num body Hm Hr Hid Hn) as (G1 & G2 & G3 & _).
+  split; [exact Q1|]. split; [exact Q2|]. split; [exact G1|]. split; [exact G2|]. split; [exact G3|].
+  split; [exact Q4|exact Q6].
+Qed.
+
+End LifePop3.
